@@ -24,6 +24,6 @@ Proof.
   set (r := uval w (snd (U_div_rem_unchecked w a b))) in *.
   assert (uval w a = uval w b * q + r) by lia.
   split.
-  - symmetry. apply (Z.div_unique_pos _ _ q r); auto.
-  - symmetry. apply (Z.mod_unique_pos _ _ q r); auto.
+  - apply (Z.div_unique_pos _ _ q r); auto.
+  - apply (Z.mod_unique_pos _ _ q r); auto.
 Qed.
